@@ -13,6 +13,10 @@ QLEVELS = [0.5, 0.25, 0.75, 0.125, 0.875]
 
 
 def make_sf(case):
+    if case.get("plain"):
+        # the same score as a plain callable: no `functional`, no `level` attribute for decompose to read
+        obj = make_sf({**case, "plain": False})
+        return lambda y_obs, y_pred, weights=None: obj(y_obs, y_pred, weights)
     if case.get("elem_f") is not None:
         from model_diagnostics.scoring import ElementaryScore
 
@@ -66,6 +70,8 @@ def decompose_request(case):
         r["functional"] = case["functional"]
     if case.get("level_given") is not None:
         r["level_given"] = f2bits(case["level_given"])
+    if case.get("plain"):
+        r["plain"] = True
     return r
 
 
